@@ -11,6 +11,7 @@ class itself is not compared), the standalone CRC check must say False, and all 
 with the model run on the same corrupted octets.
 """
 import random
+import struct
 from typing import Any, Callable, Dict, Iterator, List, Optional, Tuple
 
 import core
@@ -325,10 +326,21 @@ def _snippet(kind: Kind, d: bytes, e: Dict[str, Any]) -> str:
     return f"kind={kind.name} extra={e} corrupted={d.hex()}"
 
 
+def _repacked(obj) -> Optional[str]:
+    """view of a decoded packet for the isolation probe: the octets it packs to (all of its state is in there)"""
+    try:
+        return hx(obj.pack())
+    except (ValueError, OverflowError, struct.error):
+        return None
+
+
 def op_check(a):
     kind = KINDS[a["kind"]]
     raw = unhx(a["raw"])
-    kind.decode(raw, a)
+    obj = kind.decode(raw, a)
+    # decoded packets do not share state: the packets decoded by the previous calls of this op are looked at again
+    # (in between, the sweeps have run thousands of corrupted packets through the same decoders)
+    core.ISOLATION.check("C04:pus" if kind.pus else "C04:cfdp", obj, _repacked)
     return {"accepted": True, "crc_check": kind.crc_check(raw)}
 
 
@@ -433,7 +445,7 @@ def op_tc_mutated_pack(a):
         t.source_id = a["set_source_id"]
     if a["set_data"] is not None:
         t.app_data = unhx(a["set_data"])
-    raw = bytes(t.pack())
+    raw = core.pack_stable(t, "PusTc.pack()")
     _after_pack_checks(raw, PusTc.unpack)
     return {"first": hx(first), "raw": hx(raw), "crc_check": bool(check_pus_crc(raw))}
 
@@ -447,7 +459,7 @@ def op_tm_mutated_pack(a):
         t.seq_flags = SequenceFlags(a["set_seq_flags"])
     if a["set_data"] is not None:
         t.tm_data = unhx(a["set_data"])
-    raw = bytes(t.pack())
+    raw = core.pack_stable(t, "PusTm.pack()")
     _after_pack_checks(raw, lambda d: PusTm.unpack(d, len(unhx(a["timestamp"]))))
     return {"first": hx(first), "raw": hx(raw), "crc_check": bool(check_pus_crc(raw))}
 
@@ -601,6 +613,15 @@ class C04(Prop):
                 for k in (0, kind.ex[0] - 1, kind.ex[1], nbits - 17, nbits - 16, nbits - 1):
                     if 0 <= k < nbits and not meets(k, 1, *kind.ex):
                         yield self._single(kind, raw, ex, k, "1", f"{kind.name}:edge")
+        # ---- state leaking between decoded objects: valid packets of one kind in differing configurations (CFDP: ID /
+        #      sequence-number widths, flags and values all change with the variant index) decoded back to back; the
+        #      check op looks again at the packets it decoded before ----
+        for kind in KINDS.values():
+            off = rng.randint(0, 1000)
+            for i in range(12 if thorough else 5):
+                raw, ex = kind.make(rng, off + 7 * i)
+                yield Case({"op": f"c04_{kind.model(raw)}_check", **kind.extra(raw, ex), "raw": hx(raw)}, "valid",
+                           tag=f"{kind.name}:back-to-back")
 
 
 PROP = C04()
